@@ -277,6 +277,15 @@ SHADOW = [
     ('class A { int v = 1; } class B<int n> { int w = n; } class C : A, B<v>; multiclass M { def _x : A, B<v>; }', [("v", 1, "v", 0), ("v", 2, "v", 0)],
      "field-of-earlier-parent-in-later-parent-argument:class-and-multiclass"),
     ('defvar v = "s"; class A { int v = 1; } class B<int n> { int w = n; } def d : A, B<v>;', [("v", 2, "v", 1)], "earlier-parent-field-over-global-defvar"),
+    # declarations of two kinds that share a name: a record asks itself for a field first (own or inherited, as soon as the parent
+    # list has been read), then for a template argument, then the scopes around it
+    ('class Base { int v = 0; } class D<int v> : Base { int w = v; }', [("v", 2, "v", 0)], "inherited-field-over-own-template-argument"),
+    ('class Base { int v = 0; } class Mid : Base; class D<int v> : Mid { int w = v; }', [("v", 2, "v", 0)], "inherited-field-two-levels-over-own-template-argument"),
+    ('class Base { int v = 0; } class Other<int n>; class D<int v> : Base, Other<v>;', [("v", 2, "v", 0)], "earlier-parent-field-over-own-template-argument-in-later-parent"),
+    ('class Other<int n>; class Base { int v = 0; } class D<int v> : Other<v>, Base;', [("v", 2, "v", 1)], "own-template-argument-before-the-parent-that-has-the-field"),
+    ('defvar p = 1; multiclass M<int p> { def _a { int x = p; } }', [("p", 2, "p", 1)], "multiclass-template-argument-over-global-defvar"),
+    ('class A { int p = 0; } multiclass M<int p> { def _a : A { int x = p; } }', [("p", 2, "p", 0)], "inherited-field-over-multiclass-template-argument"),
+    ('class A; defset list<A> v = { def in_v : A; } class B<int v> { int w = v; } def d { list<A> l = v; }', [("v", 2, "v", 1), ("v", 3, "v", 0)], "template-argument-over-defset-then-defset"),
     # a variable of an OUTER bang operator, used inside an inner one, against a template argument / inherited field / own field
     # of the same name (every scope between the use and the record counts, not only the innermost); llvm-tblgen rejects an
     # iteration variable named like a FIELD of the record, so only template arguments and accumulators collide here
